@@ -1,14 +1,18 @@
 /-
-  Shape of what an endpoint emits: never an XFER_REFUSE, and its SESS_INIT announces the configured
-  segment MRU. (Needed to discharge the peer assumptions of G-tx in the two-endpoint system.)
+  Shape of what an endpoint emits: never an XFER_REFUSE, its SESS_INIT announces the configured
+  segment MRU and keepalive interval, and a KEEPALIVE only with a positive configured interval.
+  (Needed to discharge the peer assumptions of G-tx in the two-endpoint system, and for C09.)
 -/
 import DtnVerif.Model.TcpclEp
+import DtnVerif.Lemmas.TcpclTimer
+import DtnVerif.Lemmas.TcpclKaCfg
 namespace DtnVerif
 namespace Tcpcl
 
 def emitOK (cfg : Cfg) : Msg → Prop
   | .xferRefuse .. => False
-  | .sessInit _ sm _ _ _ => sm = cfg.segMru
+  | .sessInit ka sm _ _ _ => sm = cfg.segMru ∧ ka = cfg.keepalive
+  | .keepalive => 0 < cfg.keepalive
   | _ => True
 
 def EmitInv (e : Ep) : Prop := ∀ m ∈ e.emitted, emitOK e.cfg m
@@ -58,7 +62,7 @@ theorem emitInv_sendContact (e : Ep) (hi : EmitInv e) : EmitInv (sendContact e) 
 
 theorem emitInv_sendInit (e : Ep) (hi : EmitInv e) : EmitInv (sendInit e) :=
   emitInv_of_view (e := sendMessage e (.sessInit e.cfg.keepalive e.cfg.segMru sizeMax e.cfg.nodeId (sessionExt e.cfg)))
-    rfl (emitInv_sendMessage e _ hi rfl)
+    rfl (emitInv_sendMessage e _ hi ⟨rfl, rfl⟩)
 
 theorem emitInv_sendReject (e : Ep) (r : Nat) (m : Msg) (hi : EmitInv e) : EmitInv (sendReject e r m) :=
   emitInv_sendMessage e _ hi
@@ -232,7 +236,8 @@ theorem emitInv_recvRaw (e : Ep) (c : Bytes) (hi : EmitInv e) : EmitInv (recvRaw
   · exact emitInv_of_view (ev_doClose _) h1
   · exact h1
 
-theorem emitInv_step (e : Ep) (ev : Ev) (hi : EmitInv e) : EmitInv (step e ev).1 := by
+theorem emitInv_step (e : Ep) (ev : Ev) (hi : EmitInv e)
+    (hk : e.kaDeadline.isSome = true → 0 < e.cfg.keepalive) : EmitInv (step e ev).1 := by
   unfold step
   cases ev with
   | advance ms => exact emitInv_of_view rfl hi
@@ -298,7 +303,8 @@ theorem emitInv_step (e : Ep) (ev : Ev) (hi : EmitInv e) : EmitInv (step e ev).1
     · exact hi
     · split
       · exact hi
-      · exact emitInv_sendMessage _ _ (emitInv_of_view rfl hi)
+      · rename_i d hd
+        exact emitInv_sendMessage _ _ (emitInv_of_view rfl hi) (hk (by rw [hd]; rfl))
   | idleTimer =>
     simp only []
     split
@@ -319,12 +325,13 @@ theorem emitInv_step (e : Ep) (ev : Ev) (hi : EmitInv e) : EmitInv (step e ev).1
 theorem emitInv_init (cfg : Cfg) : EmitInv { cfg := cfg } := by
   intro m hm; simp at hm
 
-theorem emitInv_run (evs : List Ev) (e : Ep) (hi : EmitInv e) : EmitInv (runEp e evs) := by
+theorem emitInv_run (evs : List Ev) (e : Ep) (hi : EmitInv e) (ht : TimerInv e) (hc : KC e) :
+    EmitInv (runEp e evs) := by
   induction evs generalizing e with
   | nil => exact hi
   | cons ev evs ih =>
     simp only [runEp, run]
-    exact ih _ (emitInv_step e ev hi)
+    exact ih _ (emitInv_step e ev hi (fun h => hc (ht.1 h))) (timerInv_step e ev ht) (kc_step e ev hc)
 
 end Tcpcl
 end DtnVerif
